@@ -66,7 +66,8 @@ Definition gen_tls_params : Tls.tparams :=
      Tls.tp_host_pins_root_cas := tls_host_pins_root_cas;
      Tls.tp_plugin_requires_client := tls_plugin_requires_client;
      Tls.tp_plugin_pins_client_cas := tls_plugin_pins_client_cas;
-     Tls.tp_broker_serves_with_tls := tls_broker_serves_with_tls |}.
+     Tls.tp_broker_serves_with_tls := tls_broker_serves_with_tls;
+     Tls.tp_pools_only_pinned := tls_pools_only_pinned |}.
 
 Definition gen_res_params : Resources.rparams :=
   {| Resources.rp_serve_defers_close := res_serve_defers_listener_close;
